@@ -117,7 +117,7 @@ pub fn gen_case(rng: &mut Rng, cfg: &GenCfg) -> Case {
                 which => {
                     let mine: Vec<u32> = tags.iter().filter(|(w, _)| w == which).map(|(_, t)| *t).collect();
                     let tag = if mine.is_empty() || wr.chance(1, 5) { 999 } else { *wr.pick(&mine) };
-                    Op::UseValidator { which: *which, tag }
+                    Op::UseValidator { which: *which, tag, direct: wr.chance(1, 3) }
                 }
             };
         }
@@ -139,6 +139,9 @@ fn gen_use_alloc(wr: &mut Rng, alloc_vals: &[u64], sizes: &Sizes, cfg: &GenCfg) 
         AllocPath::DatumFixed,
         AllocPath::DatumArrayNull,
         AllocPath::DatumMapNull,
+        AllocPath::DatumArrayNullSplit,
+        AllocPath::DatumMapNullSplit,
+        AllocPath::DeserArrayNullSplit,
         AllocPath::FromAvroDatumBytes,
         AllocPath::DeserBytes,
         AllocPath::DeserString,
@@ -165,8 +168,8 @@ fn gen_use_alloc(wr: &mut Rng, alloc_vals: &[u64], sizes: &Sizes, cfg: &GenCfg) 
         let path = *wr.pick(&paths);
         let c = *wr.pick(&cands);
         let unit = match path {
-            AllocPath::DatumArrayNull => sizes.value,
-            AllocPath::DatumMapNull => sizes.entry,
+            AllocPath::DatumArrayNull | AllocPath::DatumArrayNullSplit => sizes.value,
+            AllocPath::DatumMapNull | AllocPath::DatumMapNullSplit => sizes.entry,
             _ => 1,
         };
         // the largest n within the limit and its neighbours
@@ -176,7 +179,7 @@ fn gen_use_alloc(wr: &mut Rng, alloc_vals: &[u64], sizes: &Sizes, cfg: &GenCfg) 
             1 | 2 => edge,
             _ => edge.saturating_add(1),
         };
-        let map_like = matches!(path, AllocPath::DatumMapNull | AllocPath::DeserMapNull);
+        let map_like = matches!(path, AllocPath::DatumMapNull | AllocPath::DeserMapNull | AllocPath::DatumMapNullSplit);
         let data_cap = if map_like { cfg.max_data / 16 } else { cfg.max_data };
         if path == AllocPath::BlockSizeAfterGrowth && n < 16 {
             continue;
@@ -197,3 +200,69 @@ fn gen_use_alloc(wr: &mut Rng, alloc_vals: &[u64], sizes: &Sizes, cfg: &GenCfg) 
     Op::UseAlloc { path, n, with_data: true, explicit_hr }
 }
 
+
+
+/// A scenario for the preempting engine: every thread's first operation is on the same setting
+/// (a first-use race can only happen there), at least one of them a setter, each followed by a
+/// user of that setting.
+pub fn gen_race_case(rng: &mut Rng, setting: Setting, cfg: &GenCfg) -> Case {
+    let mut wr = rng.fork("race");
+    let nthreads = wr.range(2, 3) as usize;
+    let sizes = exec::sizes();
+    let mut alloc_vals: Vec<u64> = vec![];
+    let mut tag = 1u32;
+    let mut tags = vec![];
+    let mut firsts: Vec<Option<Op>> = vec![];
+    for t in 0..nthreads {
+        // thread 0 starts with a setter, thread 1 with a first use; a third thread with either
+        let setter = t == 0 || (t > 1 && wr.chance(1, 2));
+        if !setter {
+            firsts.push(None);
+            continue;
+        }
+        firsts.push(Some(match setting {
+            Setting::Alloc => {
+                let mut v = *wr.pick(cfg.alloc_values);
+                let mut guard = 0;
+                while alloc_vals.contains(&v) && guard < 20 {
+                    v = *wr.pick(cfg.alloc_values);
+                    guard += 1;
+                }
+                alloc_vals.push(v);
+                Op::SetAlloc(v)
+            }
+            Setting::Hr => Op::SetHr(t % 2 == 0),
+            Setting::Cmp => {
+                tag += 1;
+                tags.push(tag);
+                Op::SetCmp { tag }
+            }
+            which => {
+                tag += 1;
+                tags.push(tag);
+                Op::SetValidator { which, tag }
+            }
+        }));
+    }
+    let user = |wr: &mut Rng| -> Op {
+        match setting {
+            Setting::Alloc => gen_use_alloc(wr, &alloc_vals, &sizes, cfg),
+            Setting::Hr => Op::UseHr { path: *wr.pick(&[HrPath::ToValue, HrPath::FromValue, HrPath::DatumWriterSer, HrPath::SingleWriterSer]) },
+            Setting::Cmp => Op::UseCmp { tag: if tags.is_empty() || wr.chance(1, 4) { 999 } else { *wr.pick(&tags) } },
+            which => Op::UseValidator { which, tag: if tags.is_empty() || wr.chance(1, 6) { 999 } else { *wr.pick(&tags) }, direct: true },
+        }
+    };
+    let mut threads = vec![];
+    for f in firsts {
+        let mut ops = vec![];
+        match f {
+            Some(op) => ops.push(op),
+            None => ops.push(user(&mut wr)),
+        }
+        if wr.chance(2, 3) {
+            ops.push(user(&mut wr));
+        }
+        threads.push(ops);
+    }
+    Case { threads, schedule: vec![] }
+}
